@@ -34,3 +34,14 @@ Print Assumptions same_blocks_same_length.
 Theorem zero_suffix_names_collide : exists a b, a <> b /\ unpad (pad a) = unpad (pad b).
 Proof. exact zero_suffix_collides. Qed.
 Print Assumptions zero_suffix_names_collide.
+
+(** the issuer does not run the specification-level [unpad] but a loop over indices (unpadOriginName, transcribed with
+    its index arithmetic as Model/Frontends.v unpad_go and executed against the code): on EVERY byte string the loop
+    computes exactly [unpad], so every theorem above is a theorem about what the issuer executes *)
+From PatVerif Require Import Model.Frontends Proofs.UnpadP.
+Theorem issuer_loop_is_unpad : forall p, unpad_go p = Ok (unpad p).
+Proof. exact unpad_go_eq_l. Qed.
+Print Assumptions issuer_loop_is_unpad.
+Theorem issuer_loop_recovers_name : forall name, ends_nonzero name -> unpad_go (pad name) = Ok name.
+Proof. exact unpad_go_pad_l. Qed.
+Print Assumptions issuer_loop_recovers_name.
